@@ -20,5 +20,5 @@ RESIDUAL = "finiteness of spectrum / rate / HOM values on constructed setups is 
 
 
 def families(tier, seed):
-    n = 400 if tier == "quick" else 6000
+    n = 1500 if tier == "quick" else 20000
     return [("config", seed, n, ["malformed"])]
